@@ -242,34 +242,64 @@ void constructCommon(ModelSignature model,
 
             int my_flag = flag_computing;
             while(my_flag == flag_computing){
+                #ifdef TASMANIAN_VERIF_HOOKS
+                TSG_VERIF_HOOK("c18:w-model", thread_id, x[thread_id].size() / num_dimensions); // c18: worker, before the model call
+                #endif
                 model(x[thread_id], y[thread_id], thread_id); // does the model evaluations
+                #ifdef TASMANIAN_VERIF_HOOKS
+                TSG_VERIF_HOOK("c18:w-lock", thread_id, 0); // c18: worker, after the model call, before taking the lock
+                #endif
 
                 { // must guarantee sync between work_flag and count_done, use a lock
                     std::lock_guard<std::mutex> lock(access_count_done);
                     work_flag[thread_id] = flag_done;
                     count_done++;
+                    #ifdef TASMANIAN_VERIF_HOOKS
+                    TSG_VERIF_HOOK("c18:w-done", thread_id, count_done); // c18: worker, flag and counter updated (lock held)
+                    #endif
                 }
+                #ifdef TASMANIAN_VERIF_HOOKS
+                TSG_VERIF_HOOK("c18:w-notify", thread_id, 0); // c18: worker, lock released, before notify_one
+                #endif
                 until_someone_done.notify_one(); // just finished some work, notify the main thread
+                #ifdef TASMANIAN_VERIF_HOOKS
+                TSG_VERIF_HOOK("c18:w-wait", thread_id, 0); // c18: worker, before lock + wait for a new job
+                #endif
 
                 { // wait till the main thread gives us an new piece of work
                     std::unique_lock<std::mutex> lock(access_count_done);
                     until_new_job.wait(lock, [&]()->bool{ return (work_flag[thread_id] != flag_done); });
                     my_flag = work_flag[thread_id];
+                    #ifdef TASMANIAN_VERIF_HOOKS
+                    TSG_VERIF_HOOK("c18:w-wake", thread_id, my_flag); // c18: worker, woke up with a new flag (lock held)
+                    #endif
                 }
             }
+            #ifdef TASMANIAN_VERIF_HOOKS
+            TSG_VERIF_HOOK("c18:w-exit", thread_id, my_flag); // c18: worker, leaving the thread function
+            #endif
         };
 
         // launch initial set of jobs
         std::vector<std::thread> workers(num_parallel_jobs);
+        #ifdef TASMANIAN_VERIF_HOOKS
+        TSG_VERIF_HOOK("c18:m-begin", num_parallel_jobs, total_num_launched); // c18: main, before the initial launch loop
+        #endif
         for(size_t id=0; id<num_parallel_jobs; id++){
             x[id] = manager.next(max_num_points - total_num_launched);
             if (!x[id].empty()){
                 total_num_launched += x[id].size() / num_dimensions;
                 set_initial_guess(x[id], y[id]);
                 work_flag[id] = flag_computing;
+                #ifdef TASMANIAN_VERIF_HOOKS
+                TSG_VERIF_HOOK("c18:m-assign", id, x[id].size() / num_dimensions); // c18: main, initial job assigned, before the thread starts
+                #endif
                 workers[id] = std::thread(do_work, id);
             }else{
                 work_flag[id] = flag_shutdown; // not enough samples, cancel the thread
+                #ifdef TASMANIAN_VERIF_HOOKS
+                TSG_VERIF_HOOK("c18:m-shutdown", id, 0); // c18: main, no initial job for this worker (no thread)
+                #endif
             }
         }
 
@@ -277,6 +307,9 @@ void constructCommon(ModelSignature model,
             bool any_done = false;
             for(size_t id=0; id<num_parallel_jobs; id++){
                 if (work_flag[id] == flag_done){
+                    #ifdef TASMANIAN_VERIF_HOOKS
+                    TSG_VERIF_HOOK("c18:m-collect", id, x[id].size() / num_dimensions); // c18: main, collecting a finished job (lock held)
+                    #endif
                     if (!x.empty()){ // shouldn't be empty
                         complete.add(x[id], y[id]);
                         manager.complete(x[id]);
@@ -296,11 +329,20 @@ void constructCommon(ModelSignature model,
                             total_num_launched += x[id].size() / num_dimensions;
                             set_initial_guess(x[id], y[id]);
                             work_flag[id] = flag_computing;
+                            #ifdef TASMANIAN_VERIF_HOOKS
+                            TSG_VERIF_HOOK("c18:m-assign", id, x[id].size() / num_dimensions); // c18: main, new job assigned (lock held)
+                            #endif
                         }else{
                             work_flag[id] = flag_shutdown; // not enough samples, cancel the thread
+                            #ifdef TASMANIAN_VERIF_HOOKS
+                            TSG_VERIF_HOOK("c18:m-shutdown", id, 1); // c18: main, candidates exhausted (lock held)
+                            #endif
                         }
                     }else{
                         work_flag[id] = flag_shutdown; // reached the budget, shutdown the thread
+                        #ifdef TASMANIAN_VERIF_HOOKS
+                        TSG_VERIF_HOOK("c18:m-shutdown", id, 2); // c18: main, budget reached (lock held)
+                        #endif
                     }
                 }
             }
@@ -308,21 +350,36 @@ void constructCommon(ModelSignature model,
         };
 
         while(manager.getNumRunning() > 0){ // main loop
+            #ifdef TASMANIAN_VERIF_HOOKS
+            TSG_VERIF_HOOK("c18:m-wait", manager.getNumRunning(), 0); // c18: main, before lock + wait for a finished job
+            #endif
             {   // lock access to the count_done variable
                 std::unique_lock<std::mutex> lock(access_count_done);
                 // unlock and wait until some else increments the "done" count
                 until_someone_done.wait(lock, [&]()->bool{ return (count_done > 0); });
+                #ifdef TASMANIAN_VERIF_HOOKS
+                TSG_VERIF_HOOK("c18:m-wake", count_done, 0); // c18: main, woke up (lock held)
+                #endif
                 // the lock is back on at this point, process the completed samples, reset the count and go back to waiting
                 count_done = 0;
                 if (collect_finished()) checkpoint(); // if new samples were computed, save the state
             } // unlock the access_count_done and notify that we have loaded new jobs
             // without the unlock, the threads will wake up but will not be able to read the worker flags
+            #ifdef TASMANIAN_VERIF_HOOKS
+            TSG_VERIF_HOOK("c18:m-notify", 0, 0); // c18: main, lock released, before notify_all
+            #endif
             until_new_job.notify_all();
         }
 
         load_complete(); // flush completed jobs
 
+        #ifdef TASMANIAN_VERIF_HOOKS
+        TSG_VERIF_HOOK("c18:m-join", 0, 0); // c18: main, before joining the workers
+        #endif
         for(auto &w : workers) if (w.joinable()) w.join(); // join all threads
+        #ifdef TASMANIAN_VERIF_HOOKS
+        TSG_VERIF_HOOK("c18:m-end", total_num_launched, 0); // c18: main, all workers joined
+        #endif
 
     }else{
         std::vector<double> x(grid.getNumDimensions()), y( grid.getNumOutputs());
